@@ -31,9 +31,11 @@ def emit_session(sess, path, qsteps=None):
             pre = oname(st["pre"])
             post = oname(st["post"])
             if st["op"].get("reentry"):
-                term = "(check_rstep cfg %s %s %s %s %s %s)" % (
+                nested = st.get("nested")
+                nested_t = "None" if nested is None else "(Some %s)" % emit.lst("true" if x else "false" for x in nested)
+                term = "(check_rstep cfg %s %s %s %s %s %s %s)" % (
                     pre, emit.op(st["op"]), emit.lst(emit.op(x) for x in st["op"]["reentry"]), "true" if st["outcome"] == "ok" else "false",
-                    emit.lst(emit.out_msg(m) for m in st["msgs"]), post)
+                    emit.lst(emit.out_msg(m) for m in st["msgs"]), nested_t, post)
             else:
                 term = "(check_step cfg %s %s %s %s %s)" % (
                     pre, emit.op(st["op"]), "true" if st["outcome"] == "ok" else "false",
